@@ -13,7 +13,7 @@ theorem Step.acct {s s1 : Impl} {r : Ref} {w1 : RWorld} {es : List Entry} (st : 
 /-- fields of the two views agree -/
 theorem view_fields {st : Store} {o : Obj} {x : RAcct} (h : viewObj st o = viewR x) :
     o.nonce = x.nonce ∧ o.bal = x.bal ∧ o.codeHash = x.code ∧ o.getCode st = x.code ∧ o.suicided = x.suicided ∧
-    (∀ k, o.slotView st k = x.slot k) ∧ (∀ k, st.slot o.addr k = x.cslot k) := by
+    (∀ k, o.slotView st k = x.slot k) ∧ (∀ k, o.base st k = x.cslot k) := by
   simp only [viewObj, viewR, AView.mk.injEq] at h
   obtain ⟨h1, h2, h3, h4, h5, h6, h7⟩ := h
   exact ⟨h1, h2, h3, h4, h7, fun k => congrFun h5 k, fun k => congrFun h6 k⟩
@@ -50,8 +50,19 @@ theorem sim_setNonce {s s' : Impl} {r : Ref} (c : Cfg) (h : Sim s r) (a : Addr) 
 
 /-! ### AddBalance -/
 
+/-- the simulation says nothing about the reference's sticky touches: with no empty account in the
+    records they never decide anything in `Finalise` (see `sim_finalise`) -/
+theorem Sim.anySticky {s : Impl} {r : Ref} (h : Sim s r) (l : List Addr) : Sim s { r with sticky := l } :=
+  ⟨h.cinv, h.entries, h.abs, h.thash, h.nextRev, h.touched, h.tc, h.nodup, h.revs, h.idsLt, h.idsSorted, h.jSorted,
+   h.jok, h.cnt, h.ook⟩
+
+/-- the extra dirty count of the RIPEMD touch exception changes nothing the simulation looks at -/
+theorem Sim.extraDirty {s : Impl} {r : Ref} (h : Sim s r) (b : Addr) :
+    Sim { s with journal := s.journal.addDirty b } r :=
+  ⟨⟨h.cinv.objs, h.cinv.nodup, h.cinv.store⟩, h.entries, h.abs, h.thash, h.nextRev, h.touched, h.tc, h.nodup, h.revs,
+   h.idsLt, h.idsSorted, h.jSorted, h.jok, h.cnt.extra b, h.ook⟩
+
 theorem sim_addBalance {s s' : Impl} {r : Ref} (c : Cfg) (h : Sim s r) (a : Addr) (n : Nat)
-    (hgd : ¬ (n = 0 ∧ a = c.ripemd))
     (hs : s.addBalance c a n = some s') : Sim s' (r.step c (.addBalance a n)).1 := by
   unfold Impl.addBalance at hs
   cases hg : s.getOrNew a with
@@ -62,16 +73,14 @@ theorem sim_addBalance {s s' : Impl} {r : Ref} (c : Cfg) (h : Sim s r) (a : Addr
     obtain ⟨es1, hst, hobj, haddr, hok, hview, _, _⟩ := getOrNew_spec (Step.refl h) a o hg
     have hemp := empty_eq hview
     by_cases hn : n = 0
-    · have har : a ≠ c.ripemd := fun e => hgd ⟨hn, e⟩
-      simp only [hn, if_true] at hs
+    · simp only [hn, if_true] at hs
       by_cases he : o.empty = true
       · simp only [he, if_true] at hs
         unfold Impl.touch at hs
         cases hj : s1.jappend (.touch a) with
         | none => simp [hj] at hs
         | some s2 =>
-          simp only [hj, har, if_false, Option.some.injEq] at hs
-          subst hs
+          simp only [hj] at hs
           have hjs := jappend_spec s1 s2 _ hj
           have hsr := jappend_sameRest s1 s2 _ hj
           have hv := jappend_view s1 s2 _ hj
@@ -98,8 +107,15 @@ theorem sim_addBalance {s s' : Impl} {r : Ref} (c : Cfg) (h : Sim s r) (a : Addr
           have := h.step hstep
           simp only [Ref.step, hn, if_true]
           rw [← hemp, he]
-          simp only [if_true, har, if_false]
-          exact this
+          simp only [if_true]
+          by_cases har : a = c.ripemd
+          · simp only [har, if_true, Option.some.injEq] at hs
+            subst hs
+            rw [← har]
+            exact (this.extraDirty a).anySticky _
+          · simp only [har, if_false, Option.some.injEq] at hs
+            subst hs
+            exact this.anySticky _
       · simp only [he, Bool.false_eq_true, if_false, Option.some.injEq] at hs
         subst hs
         have := h.step hst
@@ -257,7 +273,7 @@ theorem alookup_append {K V : Type} [DecidableEq K] (l1 l2 : List (K × V)) (k :
 
 theorem getCommitted_spec (st : Store) (o o1 : Obj) (k : Key) (v : Val) (hok : ObjOK st o)
     (h : o.getCommitted st k = (o1, v)) :
-    v = st.slot o.addr k ∧ viewObj st o1 = viewObj st o ∧ ObjOK st o1 ∧ o1.addr = o.addr := by
+    v = o.base st k ∧ viewObj st o1 = viewObj st o ∧ ObjOK st o1 ∧ o1.addr = o.addr := by
   unfold Obj.getCommitted at h
   cases hl : alookup k o.origin with
   | some v0 =>
